@@ -38,6 +38,9 @@ const (
 	OpReload     = "reload"   // replace Slot by a tree loaded from root N (mod #roots)
 	OpReloadJSON = "reloadjson"
 	OpDrain      = "drain" // delete every entry (down to the emptied tree)
+	// OpPersistFail: MakeRoot while the N-th Store call of that flush fails (N>=1). If the flush makes
+	// fewer Store calls it simply succeeds and counts as an ordinary persist.
+	OpPersistFail = "persistfail"
 )
 
 // PresentKey resolves a present-key selector; ok=false when the model is empty.
@@ -191,7 +194,7 @@ var DefaultWeights = OpWeights{
 func weightedKinds(w OpWeights) []string {
 	var out []string
 	for _, k := range []string{OpInsert, OpInsertNew, OpUpdate, OpInsertSame, OpDelete, OpDelWrong, OpDelAbsent,
-		OpGet, OpSize, OpIter, OpIterStop, OpClone, OpPersist, OpReload, OpReloadJSON, OpDrain} {
+		OpGet, OpSize, OpIter, OpIterStop, OpClone, OpPersist, OpReload, OpReloadJSON, OpDrain, OpPersistFail} {
 		for i := 0; i < w[k]; i++ {
 			out = append(out, k)
 		}
@@ -224,6 +227,8 @@ func GenProgram(t *rapid.T, w OpWeights, maxOps, nslots int) []Op {
 			}
 		case OpReload, OpReloadJSON:
 			op.N = rapid.IntRange(0, 7).Draw(t, "root")
+		case OpPersistFail:
+			op.N = rapid.IntRange(1, 5).Draw(t, "failnth")
 		}
 		return op
 	})
